@@ -123,6 +123,7 @@ def main():
             stats["bigwig_files" if f["kind"] == "bigwig" else "bigbed_files"] += 1
             try:
                 b = pybigtools.open(f["path"])
+                twin = pybigtools.open(f["twin"]) if f.get("twin") else None
             except BaseException as e:  # includes pyo3 PanicException
                 fail("open_failed", [f["kind"]], {"idx": idx, "file": f["path"], "start": s}, repr(e))
                 continue
@@ -271,6 +272,18 @@ def main():
                                         fail("values_raised", tags + ["arr"], c2, repr(ex))
                                 if not exact:
                                     stats["inexact_calls"] += 1
+                                    # "interpolated from the closest available zoom level": which level
+                                    # that is cannot depend on the order in which the file lists them
+                                    if twin is not None:
+                                        stats["zoom_order_twin_calls"] = stats.get("zoom_order_twin_calls", 0) + 1
+                                        try:
+                                            got_t = [float(x) for x in twin.values("c", s, e, bins=bins, summary=summary,
+                                                                                    exact=False, missing=missing, oob=oob)]
+                                            if len(got_t) != len(got) or any(not same(x, y) for x, y in zip(got, got_t)):
+                                                fail("zoom_level_choice_depends_on_header_order", tags + ["inexact"], c2,
+                                                     f"levels listed [2,4]: {got}; the same file with levels listed [4,2]: {got_t}")
+                                        except BaseException as ex:
+                                            fail("values_raised", tags + ["bins", "inexact", "twin"], c2, repr(ex))
                                 for i, g in enumerate(got):
                                     a, z = s + i * w, s + (i + 1) * w
                                     wholly_out = z <= 0 or a >= L
